@@ -146,6 +146,32 @@ func rulePolicySync(c *Ctx, rule string) {
 			c.ob(rule, fn, "stale ipsets are destroyed only after the rules were rewritten", nil, okD && nD > 0, "DestroySet is called only from the deferred clean-up closure, which runs after syncIptables returned")
 		}
 	}
+	// writeRules: every policy whose chain line is written is marked active in the same iteration (otherwise the next
+	// sync deletes the chain of a live, possibly rule-less, policy while pod chains still jump to it)
+	if fn := c.MustFn(rule, polPkg, "(*PolicyManager).writeRules"); fn != nil {
+		pc := calls(fn, polPkg+".policyChainName")
+		var marks []ssa.Instruction
+		allInstrs(fn, func(in ssa.Instruction) {
+			if mu, ok := in.(*ssa.MapUpdate); ok {
+				if b, isB := constBoolVal(mu.Value); isB && b {
+					marks = append(marks, mu)
+				}
+			}
+		})
+		ok := len(pc) == 1 && len(marks) >= 1
+		if ok {
+			r := c.reachAfter(pc[0], newCut().instr(marks...))
+			if r.has(pc[0]) {
+				ok = false
+			}
+			for _, ret := range returns(fn) {
+				if r.has(ret) {
+					ok = false
+				}
+			}
+		}
+		c.ob(rule, fn, "every policy written in a sync is marked active", nil, ok, "after policyChainName(policy) every path to the next policy / to the return passes activeChains[chain] = true in writeRules itself")
+	}
 	// createIPSet: stale entries are removed on every path after the old entries were listed
 	if fn := c.MustFn(rule, polPkg, "(*PolicyManager).createIPSet"); fn != nil {
 		ls := calls(fn, "ipset.Interface).ListEntries")
